@@ -11,6 +11,7 @@ CONSTANTS
   Conts = {TRUE, FALSE}
   Forks = {TRUE, FALSE}
   MaxFaults = 2
+  FaultBudgets = {2}
   MaxRestarts = 1
 INIT MCInit
 NEXT Next
